@@ -7,7 +7,7 @@ import tx
 from impl import trees, transform, quiet, clone, tag_uids
 
 ID = "C04"
-MODULE = ['TT.Props.C04', 'TT.Props.Pinned', 'TT.Props.C04Total']
+MODULE = ['TT.Props.C04', 'TT.Props.Pinned', 'TT.Props.C04Total', 'TT.Props.C03Cmd']
 RULE = ("random well-formed trees (1..10 tokens; discontinuous; unary chains incl. at the root and above tokens; "
         "planted punctuation incl. punctuation-only constituents) x each structural transformation with its "
         "prerequisites, and prerequisite-respecting sequences of up to 7 transformations drawn from the automaton "
@@ -165,6 +165,13 @@ def cli_sequence(rng):
 
 
 def gen(seed, tier, scale):
+    # wave 18: the whole command from its words (--trans names, --params words, source / destination words) against TT.runCmd
+    import srccases
+    import cli as _cli
+    nw = (30 if tier == "quick" else 500) * scale
+    rngs = [case_rng(seed, ID, 780000 + i) for i in range(nw)]
+    for i, c in enumerate(_cli.pmap(srccases.cmd_case, rngs)):
+        yield 780000 + i, c
     for i in range((40 if tier == "quick" else 600) * scale):
         yield 900000 + i, cli_sequence(case_rng(seed, ID, 900000 + i))
     idx = 0
